@@ -218,6 +218,12 @@ def trySend (cfg : Cfg) (s : St) (x : Nat) : St × TryRes :=
   else if s.pending.length < cfg.cap then (push s x, .ok)
   else (s, .full x)
 
+/-- `ChannelMetrics::sample_metrics` (lib.rs:658-679): the queue length is read in its own scoped lock section
+    (`{ lock().next_batch.channel.len() }`) — the guard is released BEFORE any `sampler.metric(..)` callback runs.
+    Sampling is a pure read of the shared state; whatever the sampler's callback does (e.g. `send` on the very
+    channel it samples) is an ordinary subsequent step. -/
+def sampleQueueLength (s : St) : Nat := s.pending.length
+
 /-- `Sender::when_empty` (lib.rs:263-277). -/
 def whenEmpty (s : St) (w : Nat) : St :=
   let s := { s with registeredTake := s.registeredTake ++ [w] }
@@ -614,6 +620,26 @@ def asyncFlush (cfg : Cfg) (rx : RxKind) (prefill timeout : Nat) : Bool :=
     | .hangup => .hungUp
     | _ => .elapsed
   oneshotWait timeout atTry later
+
+/-- Stream `batcher_blocking`, case `blseq`: two blocking flushes in a row on one thread against a hand-driven
+    receiver. Each call owns its trigger (`Trigger::new()` per call, sync.rs:79), so what a call's `wait_timeout`
+    reads is "has the callback registered by THIS call run"; the callback of the earlier, timed-out call running
+    during the later call does not concern it. Returns the two results and the final state. -/
+def flushSequence (cfg : Cfg) : Option (Bool × Bool × St) := do
+  let run := Sched.run (step cfg)
+  -- item 1 in flight, item 2 queued, flush #1 (watcher 1, 50 ms): nothing completes meanwhile → times out
+  let s1 ← run init [.send 1, .rxTake, .rxBegin, .send 2, .whenFlushed 1]
+  let f1 ← waitTimeout 50 (decide (1 ∈ s1.fired)) [{ flag := decide (1 ∈ s1.fired), timedOut := true, elapsed := 50 }]
+  -- [1] completes, [2] is taken (with watcher 1); item 3; flush #2 (watcher 2, 3 s)
+  let s2 ← run s1 [.rxOutcome .ok, .rxTake, .rxBegin, .send 3, .whenFlushed 2]
+  -- +100 ms: [2] completes, the callback of flush #1 runs, [3] is taken (with watcher 2)
+  let s3 ← run s2 [.rxOutcome .ok, .rxFireFlush, .rxTake, .rxBegin]
+  -- +100 ms: [3] completes, the callback of flush #2 runs
+  let s4 ← run s3 [.rxOutcome .ok, .rxFireFlush]
+  let f2 ← waitTimeout 3000 (decide (2 ∈ s2.fired))
+    [{ flag := decide (2 ∈ s3.fired), timedOut := false, elapsed := 100 },
+     { flag := decide (2 ∈ s4.fired), timedOut := false, elapsed := 100 }]
+  pure (f1, f2, s4)
 
 /-- `sync::blocking_send` (sync.rs:97-140) = `send_or_wait` with the condvar wait. Against a live receiver the
     queue has been taken when the wait returns; against a stalled one the wait lasts until the timeout. -/
